@@ -348,8 +348,8 @@ func main() {
 		prop = "C01"
 	}
 	rules := map[string]string{
-		"C01": "fixed corpus of minimal histories of the repaired defects first; then random CFL assets (3/4: 1-4 flows, 0-6 nodes, cycles, self/mutual/terminal enters, empty flows, waits with/without timeout; 1/4: enter_flow chains 3-6 levels deep whose deepest flow waits, fails, enters itself or closes the cycle) x trigger (manual/msg/flow_action) x 0-8 resumes (msg/timeout/expiration/dial); a history whose first sprint does not wait is redrawn once; non-trivial = the history has >=2 sprints and >=2 runs, or took a failure/expiry/terminal/limit branch; distinct = distinct canonical history JSON",
-		"C05": "(a) as C01 with adversarial graphs (self-loops, default-to-self routers, A enters B enters A, terminal loops) and small option values; non-trivial = some sprint came within 2 of the step limit or hit it, or a text was cut at a length limit, or the resume limit was reached; (b) payload stream, direct oracle only (outside the Coq model): fixed corpus + flows with send_msg (text, quick replies, attachments around 2048 bytes), set_contact_name, set_contact_field (text/number/datetime fields) and set_run_result whose values have limit+1, limit, limit-1 or many more characters, built from ASCII, multi-byte text, dates, numbers and URLs, under small random MaxFieldChars/MaxResultChars/MaxTemplateChars and the defaults; every event payload and the resulting contact and run results are checked (1 case in 7 is a voice flow with play_audio / say_msg: the message on ivr_created gets the checks of msg_created); non-trivial = some value exceeds its limit or the message has quick replies/attachments; (c) definition stream, direct oracle only: fixed corpus + flows whose type changes between sprints, reference lists with null/empty/malformed/duplicate elements, self-returning routers and actions that read back what the previous visit stored (run under growing step limits; no string of the session or the events longer than every limit), sessions without a contact x 19 first actions; (d) expressions nested 40,000 deep run in a child process under a 48 MB stack ceiling",
+		"C01": "fixed corpus of minimal histories of the repaired defects first; then random CFL assets (3/4: 1-4 flows, 0-6 nodes, cycles, self/mutual/terminal enters, empty flows, waits with/without timeout; 1/4: enter_flow chains 3-6 levels deep whose deepest flow waits, fails, enters itself or closes the cycle) x trigger (manual/msg/flow_action) x 0-8 resumes (msg/timeout/expiration/dial); a history whose first sprint does not wait is redrawn once; non-trivial = the history has >=2 sprints and >=2 runs, or took a failure/expiry/terminal/limit branch; distinct = distinct canonical history JSON; plus the alias stream (direct oracle only): flow assets whose asset uuid differs from the uuid inside the definition (host source / legacy export), marshal -> ReadSession between resumes",
+		"C05": "(a) as C01 with adversarial graphs (self-loops, default-to-self routers, A enters B enters A, terminal loops) and small option values; non-trivial = some sprint came within 2 of the step limit or hit it, or a text was cut at a length limit, or the resume limit was reached; (b) payload stream, direct oracle only (outside the Coq model): fixed corpus + flows with send_msg (text, quick replies, attachments around 2048 bytes), set_contact_name, set_contact_field (text/number/datetime fields) and set_run_result whose values have limit+1, limit, limit-1 or many more characters, built from ASCII, multi-byte text, dates, numbers and URLs, under small random MaxFieldChars/MaxResultChars/MaxTemplateChars and the defaults; every event payload and the resulting contact and run results are checked (1 case in 7 is a voice flow with play_audio / say_msg: the message on ivr_created gets the checks of msg_created); non-trivial = some value exceeds its limit or the message has quick replies/attachments; (c) definition stream, direct oracle only: fixed corpus + flows whose type changes between sprints, reference lists with null/empty/malformed/duplicate elements, self-returning routers and actions that read back what the previous visit stored (run under growing step limits; no string of the session or the events longer than every limit), sessions without a contact x 19 first actions; (d) expressions nested 40,000 deep run in a child process under a 48 MB stack ceiling; (e) 5 templates whose one evaluation builds gigabytes, each in one evaluated member, in a child process under a 3 GiB address-space cap; (f) reader stream: documents the engine marshalled (sessions, triggers, contact, resumes, modifiers) with one structure-aware mutation, read back (and resumed / started when they read)",
 		"C10": "as C01 (first sprint redrawn up to 5 times until it waits; 15% dial, 15% wait_timeout, 5% run_expiration resumes) plus faults in the asset store between sprints (flow deleted, flow re-saved with another type, flow edited so that it no longer validates, waiting node deleted / without router / without wait, timeout removed/added, resume limit lowered), resumes of every type against every wait, resumes of finished sessions, tampered sessions without a waiting run; plus the definition stream (direct oracle only): flows whose type changes between sprints with say_msg / play_audio / send_msg after the wait; non-trivial = at least one resume was rejected with an engine error or ended in a failed session",
 	}
 	res := hx.NewResult(o, rules[prop])
